@@ -165,6 +165,28 @@ def run(P, C, tier):
             C.ob("R2", "validated-before-use:" + fn.split("::")[-2] + "::" + fn.split("::")[-1], ok, b.loc(vp[0][0]) if vp else b.loc(), "validate_params(parameters)? succeeds before the parameters are read (%d uses)" % len(us))
         except mir.MissingAnchor as e:
             C.anchor_missing("R2", fn, e)
+    # R2b: validate_params takes each declared parameter out of the map to check it: on every path that does not
+    # return an error it must put it back (the later `params.get(var).unwrap()` sites of class I rely on it)
+    try:
+        vp = P.body("parameter::Variables::validate_params")
+        C.saw(vp)
+        rem = [bi for bi, t in vp.calls_to(r"HashMap::remove$") if field_path(vp.call_args(bi)[0]).endswith("params.params")]
+        ins = [bi for bi, t in vp.calls_to(r"HashMap::insert$") if field_path(vp.call_args(bi)[0]).endswith("params.params")]
+        hdr = [bi for bi, t in vp.live_calls() if "d:ForLoop" in t["at"][1] and callee_name(t).endswith("::next")]
+        ok = len(rem) == 1 and bool(ins) and len(hdr) >= 1
+        det = "remove sites %d, insert sites %d" % (len(rem), len(ins))
+        if ok:
+            re_ = mir.result_edges(vp, rem[0])
+            ra = mir.return_assignments(vp)
+            targets = set(ra["Ok"]) | {h for h in hdr if vp.dominates(h, rem[0])}
+            same_key = all(mir.strip(vp.call_args(i)[1]) == mir.strip(vp.call_args(rem[0])[1]) or field_path(vp.call_args(i)[1]) == field_path(vp.call_args(rem[0])[1]) for i in ins)
+            r = vp.reachable(re_["ok"], avoid_blocks=set(ins)) if re_ and "ok" in re_ else targets
+            leak = sorted(vp.loc(x) for x in (r & targets))
+            ok = not leak and same_key
+            det = "every path from `params.remove(&var_name)` == Some(..) to the next variable or to Ok(()) re-inserts the value under the same name: %s (%d insert sites%s)" % (not leak, len(ins), "" if not leak else "; escaping at %s" % leak[:2])
+        C.ob("R2", "validated-parameters-are-kept", ok, vp.loc(rem[0]) if rem else vp.loc(), det)
+    except mir.MissingAnchor as e:
+        C.anchor_missing("R2", "validate_params", e)
     # ---------------------------------------------------------------- R3
     n3 = 0
     for b in P.bodies.values():
